@@ -44,11 +44,6 @@ func genC13Bind(t *rapid.T) *c13Bind {
 		p := MParam{Name: c13ParamNames[i]}
 		if drawBool(t, "hasdef") {
 			d := c13Arg(t)
-			if drawInt(t, 0, 2, "defnamesparam") == 0 {
-				// the default mentions a name that is also a parameter of this macro: it still means
-				// the variable of the defining scope (defaults are evaluated there)
-				d = ME{K: "name", N: pick(t, "defparam", c13ParamNames)}
-			}
 			p.Def = &d
 		}
 		mac.Params = append(mac.Params, p)
@@ -189,6 +184,9 @@ func checkC13Bind(c any, r *Rec) error {
 	for _, form := range []string{"local", "imported", "aliased"} {
 		f := cs.forms()[form]
 		want, werr := mmReference(f.root, f.files, empty, cs.Ctx)
+		if werr != nil && strings.HasPrefix(werr.msg, "opaque:") {
+			return skipf("%s", werr.msg)
+		}
 		got, gerr, _, _ := mmEngine(f.root, f.files, empty, cs.Ctx)
 		desc := fmt.Sprintf("form=%s root=%q files=%v", form, mmSrc(f.root), c12FilesSrc(f.files))
 		// the same compiled template executed again, with another context: macros (also imported
@@ -456,6 +454,9 @@ func c13SecondContext(cs *c13Bind, root []MNode, files map[string][]MNode) error
 	empty := Val{K: "mapSA"}
 	for i, c := range []Val{cs.Ctx, other, cs.Ctx} {
 		want, werr := mmReference(root, files, empty, c)
+		if werr != nil && strings.HasPrefix(werr.msg, "opaque:") {
+			return nil
+		}
 		got, gerr := tpl.Execute(BuildContext(c))
 		if (werr != nil) != (gerr != nil) {
 			return fmt.Errorf("execution %d on one compiled template: error expected %v, got %v", i+1, werr != nil, gerr)
